@@ -130,7 +130,7 @@ def gen_case(rnd, profile="mixed", size="small"):
         if qp == 0:
             base = max(1, int(base)) * 10
         ref[pi] = F(base)
-    nb = {"small": rnd.randint(3, 14), "medium": rnd.randint(10, 40), "long": rnd.randint(120, 260)}[size]
+    nb = {"small": rnd.randint(3, 14), "medium": rnd.randint(10, 40), "long": rnd.randint(110, 170)}[size]
     bars = []
     cur = dict(ref)
     for k in range(nb):
